@@ -70,9 +70,15 @@ impl CharacterData {
     // two clauses of compat_post, proved in unit chardata
     #[verifier::external_body]
     pub fn check_version_compatibility(&self, data_spec: &CharacterDataSpec, target_version: AutosarVersion) -> (r: (bool, u32))
-        ensures r.0 == valid(*self, *data_spec, target_version as u32), r.0 ==> r.1 & (target_version as u32) != 0,
+        ensures valid(*self, *data_spec, target_version as u32) ==> r.0,    // lemma_valid_implies_compatible in unit chardata
+            r.0 ==> r.1 & (target_version as u32) != 0,
             // third clause (lemma_compat_iff in unit chardata): when an enumeration value is held wherever one is expected, the mask has the target exactly when compatible
             value_kind_ok(*self, *data_spec) ==> (r.0 <==> r.1 & (target_version as u32) != 0)
+    { unimplemented!() }
+    // full validity of a value for a spec in a version: contract proved in unit chardata (check_value:ensures:0), same `valid`
+    #[verifier::external_body]
+    pub fn check_value(value: &CharacterData, spec: &CharacterDataSpec, file_version: AutosarVersion) -> (r: bool)
+        ensures r == valid(*value, *spec, file_version as u32)
     { unimplemented!() }
     #[verifier::external_body]
     pub fn to_string(&self) -> (r: String) { unimplemented!() }
@@ -236,6 +242,7 @@ pub proof fn axiom_crosstype(pt: int, n: ElementName, t_own: ElementType, t_new:
 
 R45 = [
     (r'overall_version_mask &= (\w+);', lambda m: 'let ghost vx_om = overall_version_mask; overall_version_mask &= %s; proof { lemma_and_mask(vx_om, %s, target_version as u32); }' % (m.group(1), m.group(1)), 'ghost'),
+    (r'value_version_mask &= !\(target_version as u32\);', lambda m: 'let ghost vx_vm = value_version_mask; value_version_mask &= !(target_version as u32); proof { let vx_w: u32 = target_version as u32; assert((vx_vm & !vx_w) & vx_w == 0) by(bit_vector); }', 'ghost'),
     (r'CompatibilityError::\w+ \{[^{}]*\}', lambda m: 'vx_compat_error()', 'R45'),
     (r'let version_mask = autosar_data_specification::expand_version_mask\(u32::MAX\)\s*\.iter\(\)\s*\.filter\(\|ver\| !elemtype_new\.is_named_in_version\(\*\*ver\)\)\s*\.fold\(0u32, \|mask, ver\| mask \| \*ver as u32\);',
      lambda m: 'let version_mask = vx_unnamed_mask(elemtype_new);', 'R45'),
